@@ -116,8 +116,9 @@ def report(check, tier, seed, agg):
             # a wall-clock watchdog can fire because the machine stalled: the verdict needs the case to exceed twice
             # the limit again when it runs alone (once one hang is confirmed the others are believed)
             limit = check.plan(tier).get('case_timeout_s', 20)
-            again = kernel.run_one(check, case, min(2 * limit, limit + 60))
-            if not any(x.get('clause') == 'hang' for x in again.get('violations') or ()):
+            limit = min(2 * limit, limit + 60)
+            how, again = kernel.in_child(lambda: kernel.run_one(check, case, limit), limit + 30)
+            if how == 'ok' and not any(x.get('clause') == 'hang' for x in again.get('violations') or ()):
                 print(f"note: watchdog fired for case {entry['index']} but it finishes when re-run alone - not a hang")
                 agg['violation_count'] -= 1
                 continue
@@ -127,22 +128,22 @@ def report(check, tier, seed, agg):
         seen_sigs[sig0] = n_same + 1
         mcase, mv = case, v
         if case is not None and n_same < 3 and time.time() < budget_t and v.get('clause') not in ('process-crash', 'hang'):
+            # minimisation re-runs reduced cases on a tree that is known to be defective: it happens in a child process
+            # (which may crash or loop) under a wall limit, and costs at worst the minimised form of the replay
+            how, res = kernel.in_child(lambda: check.minimise(case, v), check.plan(tier).get('minimise_one_s', 150))
+            if how == 'ok' and res:
+                mcase, mv = res
+            else:
+                print(f"note: minimising case {entry['index']} did not finish ({how}) - reporting it unminimised")
+
+        def _sig():
             try:
-                # one minimisation never takes more than this (a reduced case may make a defective tree loop)
-                signal.setitimer(signal.ITIMER_REAL, check.plan(tier).get('minimise_one_s', 150))
-                mcase, mv = check.minimise(case, v)
-            except kernel.WatchdogTimeout:
-                print(f"note: minimising case {entry['index']} ran out of time - reporting it unminimised")
-                mcase, mv = case, v
-            except BaseException:   # noqa
-                traceback.print_exc()
-                mcase, mv = case, v
-            finally:
-                signal.setitimer(signal.ITIMER_REAL, 0)
-        try:
-            sig = check.signature(mcase, mv) if mcase is not None else {'clause': v.get('clause')}
-        except Exception as e:
-            sig = {'clause': v.get('clause'), 'signature_error': repr(e)}
+                return check.signature(mcase, mv) if mcase is not None else {'clause': v.get('clause')}
+            except Exception as e:
+                return {'clause': v.get('clause'), 'signature_error': repr(e)}
+        how, sig = kernel.in_child(_sig, 120)
+        if how != 'ok' or not isinstance(sig, dict):
+            sig = {'clause': v.get('clause'), 'signature_error': f'signature computation {how}'}
         k = kernel.match_known(check.ID, sig, known)
         if k is not None:
             known_hits.setdefault(k['id'], [k, 0])[1] += 1
